@@ -391,6 +391,11 @@ func (c17World) Run(prop string, ch *zsim.Choices, trace bool) *RunResult {
 				if v := totalityViolation(r, buf, desc+fmt.Sprintf(" via entry point %d", ep)); v != nil {
 					zsim.Fail(v.Clause, "%s", v.Msg)
 				}
+				if ep == 2 && len(buf) > 0 && len(r.out) == 0 && r.err == nil && r.panicked == nil {
+					// a Write of a damaged event comes back with a rendered line and/or an error,
+					// not with nothing
+					zsim.Fail("C17.silent", "%s: ConsoleWriter.Write of %d stored bytes produced no output and no error; input %s", desc, len(buf), hexClip(buf, 120))
+				}
 			}
 		}
 		_ = s
@@ -431,7 +436,15 @@ func mutate(ch *zsim.Choices, bp *[]byte) string {
 	var desc []string
 	for i := 0; i < n; i++ {
 		pos := ch.Intn(len(b))
-		switch ch.Weighted(3, 3, 3, 2, 2, 2, 2) {
+		switch ch.Weighted(3, 3, 3, 2, 2, 2, 2, 1) {
+		case 7:
+			// a run of container headers: nesting far deeper than any event the encoder produces
+			depth := []int{300, 1100, 5000}[ch.Intn(3)]
+			hdr := []byte{0x9f, 0x81, 0xbf, 0xa1, 0xd8}[ch.Intn(5)]
+			run := bytes.Repeat([]byte{hdr}, depth)
+			b = append(b[:pos:pos], append(run, b[pos:]...)...)
+			zsim.Fault("deep_nesting")
+			desc = append(desc, fmt.Sprintf("%d x %#x inserted at %d", depth, hdr, pos))
 		case 0:
 			bit := ch.Intn(8)
 			b[pos] ^= 1 << bit
